@@ -64,7 +64,7 @@ fn k_builder_complete() {
 #[repr(align(32))] #[derive(Clone, Copy)] struct Z32;
 macro_rules! sized_inst {
     ($name:ident, $t:ty, $v:expr) => {
-        /// alloc -> value pointer aligned, header immediately in front (disjoint), value bytes intact; dropping the context releases the
+        /// alloc -> value pointer aligned, header aligned and disjoint from the value's bytes, value bytes intact; dropping the context releases the
         /// block through the real vtable: Kani's allocator model checks the exact base pointer AND the identical layout
         #[kani::proof]
         fn $name() {
@@ -74,7 +74,9 @@ macro_rules! sized_inst {
                 let p = Gc::as_ptr(g) as usize;
                 assert!(p % core::mem::align_of::<$t>() == 0, "[layout] the pointer returned by allocation is aligned for the value");
                 let h = header_addr(g.ptr.erase());
-                assert!(h + 16 == p && h % 8 == 0, "[layout] the header sits immediately in front of the value, aligned");
+                // what C17 asks for, not how the crate lays the block out today: bookkeeping aligned and disjoint from the value's bytes
+                let (hs, ha) = (core::mem::size_of::<crate::gc_ptr::GcHeader>(), core::mem::align_of::<crate::gc_ptr::GcHeader>());
+                assert!(h % ha == 0 && (h + hs <= p || p + core::mem::size_of::<$t>() <= h), "[layout] the collector's header is aligned and disjoint from the value's bytes");
                 let back: Gc<'_, $t> = Gc::from_ptr(Gc::as_ptr(g));
                 assert!(Gc::ptr_eq(back, g), "[layout] as_ptr / from_ptr preserve the address");
                 drop(cx);
